@@ -58,6 +58,15 @@ func ttWord(prefix string, t, p, length int) string {
 	return w[:length]
 }
 
+// ttWordCyr is ttWord in Cyrillic letters: the same number of characters, twice the bytes.
+func ttWordCyr(t, p, length int) string {
+	rs := []rune{'\u0442', rune(0x0430 + t - 1), rune(0x0430 + p - 1)}
+	for len(rs) < length {
+		rs = append(rs, '\u043e')
+	}
+	return string(rs[:length])
+}
+
 func ttLen(tok string) int {
 	switch tok {
 	case "w2", "c2":
@@ -74,7 +83,10 @@ func ttLen(tok string) int {
 func ttTitleText(toks []string, g *docGen, vocab ttVocab) string {
 	word := func(t, p, n int) string {
 		w := ttWord("t", t, p, n)
-		if n > 2 && g.rng.Intn(4) == 0 {
+		if n >= 40 && g.rng.Intn(3) == 0 {
+			// long words in a multi-byte script: lengths are counted in characters, not bytes
+			w = ttWordCyr(t, p, n)
+		} else if n > 2 && g.rng.Intn(4) == 0 {
 			w = strings.ToUpper(w[:1]) + w[1:]
 		}
 		vocab[strings.ToLower(w)] = ttAtom{"w", n, t, p}
@@ -118,7 +130,7 @@ func ttDecode(s string, vocab ttVocab) []ttAtom {
 				j++
 			}
 			w := string(rs[i:j])
-			if a, ok := vocab[strings.ToLower(w)]; ok && len(w) == a.N {
+			if a, ok := vocab[strings.ToLower(w)]; ok && j-i == a.N {
 				out = append(out, a)
 			} else {
 				out = append(out, ttAtom{"?", j - i, 0, 0})
